@@ -401,7 +401,7 @@ var hostileNames = [][]byte{
 
 // followerHas waits until the follower lists exactly the leader's tables.
 func (e *apiEnv) followerSync() bool {
-	for i := 0; i < 400; i++ {
+	for i := 0; i < 1200; i++ {
 		ctx, cancel := ctxT()
 		l, err := e.ftab.List(ctx, &regattapb.ListTablesRequest{})
 		cancel()
